@@ -113,6 +113,21 @@ def check_C06(ctx):
             if mf.get('st') != f['st'] or (f['st'] == '0' and mf.get('bytes') != f['bytes']):
                 cbroken.append({'case': line, 'hraw': o, 'mraw': mo})
     report_broken(ctx, cbroken, 'capacity', 'buffer writers = model bufw_ops')
+    # unbounded logical buffers (NOP_UNBOUNDED_BUFFER: the count is not limited by the declared array length): GetSize is what
+    # Write emits, and the value comes back
+    ul = ['ubuf %s %d' % (k, n) for k in ('i32', 'f32', 'u8', 'si16', 'sf64') for n in (0, 1, 2, 3, 31, 32, 127, 128, 255, 256, 1000)]
+    uo = run_parallel([os.path.join(pool.dir, 'ubuf')], ul, env=ASAN_ENV, what='ubuf')
+    for line, o in zip(ul, uo):
+        ctx.count('unbounded-buffer', line)
+        if o.startswith(('CRASH', 'HARNESS', 'OOM', 'EXCEPTION')):
+            ctx.violate('crash:ubuf', 'an unbounded logical buffer crashed the writer/reader or tripped a sanitizer: %s -> %s' % (line, o[:300]), {'case': line, 'output': o})
+            continue
+        f = sx.fields(o)
+        if f['st'] != '0' or f['rst'] != '0' or f['same'] != '1' or f['consumed'] != f['n']:
+            ctx.violate('unbounded-roundtrip', 'an unbounded logical buffer does not round-trip: %s -> %s' % (line, o[:200]), {'case': line, 'output': o})
+        elif f['size'] != f['n']:
+            ctx.violate('size-underestimates' if int(f['size']) < int(f['n']) else 'size-inexact', 'GetSize=%s but Write emitted %s bytes for an unbounded logical buffer: %s' % (f['size'], f['n'], line),
+                        {'case': line, 'output': o})
     # remaining capacity: the same value written twice through one writer
     tw = []
     for r in rows[: (120 if ctx.quick else 3000)]:
@@ -1169,7 +1184,8 @@ def check_C09(ctx):
     ctx.count('protocol-matrix', 'protomatrix')
     pf = sx.fields(pm) if pm.startswith('write=') else {}
     names = ['int[3]', 'int[5]', 'array<int,3>', 'array<int,5>', 'vector<int>', 'tuple<int,int,int>', 'pair<int,int>', 'float[3]', 'array<float,3>',
-             'vector<float>', 'tuple<float,float,float>', 'int', 'string', 'vector<string>', 'string[3]']
+             'vector<float>', 'tuple<float,float,float>', 'int', 'string', 'vector<string>', 'string[3]',
+             'vector<vector<int>>', 'vector<array<int,3>>', 'vector<pair<int,string>>', 'vector<tuple<int,string>>']
     if not pf:
         ctx.violate('harness-crash', 'protomatrix failed: ' + pm[:200], {'output': pm})
     else:
@@ -1182,7 +1198,7 @@ def check_C09(ctx):
                                 {'protocol_type': pn, 'value_type': tn, 'matrix': pm})
         # documented relations among these types: arrays and vectors of one element type (equal lengths for arrays); tuples
         # join them for non-integral elements only (integral sequences are BIN, tuples are ARY)
-        want_true = [(0, 2), (2, 0), (0, 4), (4, 0), (7, 8), (8, 9), (7, 10), (10, 7), (1, 3), (3, 4), (13, 14)]
+        want_true = [(0, 2), (2, 0), (0, 4), (4, 0), (7, 8), (8, 9), (7, 10), (10, 7), (1, 3), (3, 4), (13, 14), (15, 16), (16, 15), (17, 18), (18, 17)]
         want_false = [(0, 1), (1, 0), (0, 3), (2, 3), (0, 7), (4, 9), (11, 12), (0, 11), (5, 6), (1, 5), (0, 5), (4, 5)]
         for (i, j), w in [(p, '1') for p in want_true] + [(p, '0') for p in want_false]:
             if ff[i][j] != w:
@@ -1511,8 +1527,16 @@ def check_C17(ctx):
             need.append(b)
         for k in ('lstream', 'blstream'):
             ll.append((k, cap, calls, need, 'wseq %s %d %d - 0 %s' % (k, cap, 2 ** 40, ','.join(calls) or '-')))
+    # a descriptor that takes only part of a long block (a pipe with little room): FdWriter must not report success
+    for cap in (0, 10, 100, 3000):
+        for blk in (4097, 5000, 9000):
+            calls = ['w7', 'W1x' + ''.join('%02x' % rng.randrange(256) for _ in range(blk)), 'w9']
+            need = ['07', calls[1].split('x', 1)[1], '09']
+            ll.append(('lfd', cap, calls, need, 'wseq lfd %d 0 - 0 %s' % (cap, ','.join(calls))))
     lo = run_prim(pool, [x[4] for x in ll])
     for (k, cap, calls, need, line), o in zip(ll, lo):
+        if o == 'unsupported':
+            continue
         ctx.count('writer:' + k, line)
         if o.startswith(('CRASH', 'HARNESS', 'EXCEPTION', 'OOM')):
             ctx.violate('memory-error:' + k, 'writer %s crashed or tripped a sanitizer: %s -> %s' % (k, line[:200], o[:300]), {'case': line, 'output': o})
